@@ -31,6 +31,7 @@ AUTOMUT_TRIAGE = [
 
 def run(chk):
     repo = chk.repo
+    cm.schema(chk, repo, "C16")
     d1_grid(chk, repo)
     d2_cell_arrays(chk, repo)
     d3_reader(chk, repo)
